@@ -47,6 +47,7 @@ EXPLANATION = (
   ' (LOOP-break) no loop over the items of a collection is left by a branch that does nothing but `break` on a test about the item (end-of-input sentinels, flags set in the loop body and searches whose variable is read afterwards excepted): an item that is to be skipped does not end the processing of the items after it;'
   " (TERM-refs) merge_chained_styles takes a style reference out of the element's list before it follows it, so a cycle of style references ends instead of recursing until RecursionError;"
   + " (PRUNE-sites) every `return None` of ISD._process_element is one of the grounds for leaving an element out of a snapshot - inactive at the offset, another region, display=none, the final emptiness rule; any other site, evaluated over every element kind with and without children, drops only what the final rule would drop (never an element with children, never an empty part of a ruby container);"
+  + " (DSP-units, shared with C03) _compute_length converts every relative unit and returns root-relative lengths (rh, rw) unchanged;"
 )
 RULE_TEXT = "per function / class / dereference / extraction site / raise statement"
 UNDECIDED = ["termination", "RecursionError (input-depth recursion exists in from_xml, dfs_iterator, _process_element)", "TypeError / AssertionError guarded by data-dependent invariants",
@@ -243,6 +244,8 @@ def check_optional_fields(ctx):
 
 
 def run(ctx):
+  from . import c03 as _c03u
+  _c03u.check_units(ctx)
   from ..rules import isdrules as _isdr
   ctx.floor("PRUNE-sites", "`return None` sites of _process_element", _isdr.check_prune_sites(ctx, ctx.ix.func("ttconv.isd:ISD._process_element")), 4)
   ix = ctx.ix
